@@ -181,3 +181,83 @@ def cond_atoms(term):
 def mentions(term, text):
     """does the rendered term mention `text` (an attribute chain such as self._maxfun)"""
     return text in T.show(term)
+
+
+# ---------------------------------------------------------------- sliced symbolic execution
+def _names_in(node):
+    return set(n.id for n in ast.walk(node) if isinstance(n, ast.Name))
+
+
+def backward_slice(fnode, seeds):
+    """names whose values can flow into `seeds` through plain assignments inside fnode (flow-insensitive closure)"""
+    names = set(seeds)
+    assigns = []
+    for st in walk_no_nested(fnode):
+        if isinstance(st, (ast.Assign, ast.AugAssign, ast.AnnAssign)) and getattr(st, 'value', None) is not None:
+            assigns.append((set(assigned_names(st)), _names_in(st.value) | (_names_in(st.target) if isinstance(st, ast.AugAssign) else set())))
+        elif isinstance(st, ast.For):
+            assigns.append((set(assigned_names(st)), _names_in(st.iter)))
+    changed = True
+    while changed:
+        changed = False
+        for tg, used in assigns:
+            if tg & names and not used <= names:
+                names |= used
+                changed = True
+    return names
+
+
+def sliced_paths(fnode, seeds=None, extra=None, unroll=(0, 1), max_paths=50000):
+    """paths of fnode in which only the statements that can influence the returned values (or `seeds`) are kept;
+    everything else collapses to skips, so independent option handling does not multiply the paths"""
+    rets = [n for n in walk_no_nested(fnode) if isinstance(n, ast.Return) and n.value is not None]
+    s = set(seeds or ())
+    for r in rets:
+        s |= _names_in(r.value)
+    names = backward_slice(fnode, s)
+
+    def rel(n):
+        if isinstance(n, (ast.Return, ast.Raise)):
+            return True
+        if isinstance(n, (ast.Assign, ast.AugAssign, ast.AnnAssign, ast.For)):
+            return bool(set(assigned_names(n)) & names)
+        if extra is not None and extra(n):
+            return True
+        return False
+    return enumerate_paths(fnode, relevant=rel, unroll=unroll, max_paths=max_paths), names
+
+
+def return_terms(fnode, seeds=None, extra=None, unroll=(0, 1), builder=None):
+    """[(path, returned canonical term, builder)] with locals forward-substituted along each (sliced) path"""
+    paths, names = sliced_paths(fnode, seeds, extra, unroll)
+    out = []
+    for p in paths:
+        if p.exit != 'return' or p.exit_node is None or p.exit_node.value is None:
+            continue
+        b, conds = symbolic_run(_without_exit(p), builder.copy() if builder is not None else None)
+        out.append((p, T.simp(b.t(p.exit_node.value)), b, conds))
+    return out
+
+
+class _P(object):
+    def __init__(self, events):
+        self.events = events
+
+
+def _without_exit(p):
+    ev = [e for e in p.events if not (e[0] == 'stmt' and e[1] is p.exit_node)]
+    return _P(ev)
+
+
+def flatten_seq(term):
+    """elements of a tuple/list term, looking through concatenations; None for anything else"""
+    if not isinstance(term, tuple) or not term:
+        return None
+    if term[0] in ('tuple', 'list'):
+        return list(term[1:])
+    if term[0] == 'concat':
+        a, b = flatten_seq(term[1]), flatten_seq(term[2])
+        if a is None or b is None:
+            return None
+        return a + b
+    return None
